@@ -915,6 +915,30 @@ func (e *Exec) evalCall(ctx *evalCtx, x *ECall, want types.Type) Val {
 			out.T = append(out.T, tIte(c.T[0], a.T[i], b.T[i]))
 		}
 		return out
+	case "bound":
+		// bound(f, "m", x): f is the method value x.m (a bound-method closure)
+		f := arg(0, nil)
+		ms, ok := x.Args[1].(*EStr)
+		if !ok {
+			fail("bound(): second argument must be a method name string")
+		}
+		recv := arg(2, nil)
+		if f.Clo == nil || f.Clo.Fn == nil || len(f.Clo.Bindings) != 1 || f.Clo.Fn.Name() != ms.S+"$bound" {
+			return Val{T: []string{"false"}, Typ: boolT}
+		}
+		return Val{T: []string{tEq(f.Clo.Bindings[0].T[0], recv.T[0])}, Typ: boolT}
+	case "isClosure":
+		// isClosure(f, "parent$n"): f is that function literal
+		f := arg(0, nil)
+		ms, ok := x.Args[1].(*EStr)
+		if !ok {
+			fail("isClosure(): second argument must be a closure name string")
+		}
+		okc := f.Clo != nil && f.Clo.Fn != nil && (f.Clo.Fn.Name() == ms.S || FuncName(f.Clo.Fn) == ms.S)
+		if okc {
+			return Val{T: []string{"true"}, Typ: boolT}
+		}
+		return Val{T: []string{"false"}, Typ: boolT}
 	case "mod":
 		// mod(a, b) on mathematical integers (SMT-LIB mod: result in [0, |b|))
 		a, b := arg(0, ghostIntT), arg(1, ghostIntT)
